@@ -286,8 +286,35 @@ def helpers_rule(F, rep):
         for n in tir.walk(b["tir"]["value"]):
             if n.get("k") == "For":
                 it = tir.pretty(n["iter"])
-                iv = n["pat"].get("name")
-                txt = tir.pretty(n["body"])
-                ok = ("game::NUM_PORTS" in it and "values.get((%s as usize))" % iv in txt and "game::Port::parse(&fields[(%s as usize)].name)" % iv in txt
-                      and "from_struct_array(a.as_any().downcast_ref().unwrap().clone(), version" in txt)
+                iv = n["pat"].get("id")
+                vparam = b["tir"]["params"][1].get("name")
+
+                def is_i(e):
+                    e = strip(e)
+                    while e.get("k") == "Cast":
+                        e = strip(e["e"])
+                    return e.get("k") == "Path" and e.get("id") == iv
+                child = None     # binding of `values.get(i)`
+                for x in tir.walk(n["body"]):
+                    if x.get("k") == "If" and strip(x["cond"]).get("k") == "LetCond":
+                        lc = strip(x["cond"])
+                        g = strip(lc["init"])
+                        if (lc["pat"].get("path") or "").endswith("::Some") and g.get("k") == "MethodCall" and g["method"] == "get" and tir.place(g["recv"]) == "values" and is_i(g["args"][0]):
+                            child = lc["pat"]["pats"][0].get("id")
+                conv = parse_ok = False
+                for c in tir.walk(n["body"]):
+                    if c.get("k") == "Call" and (declared(c) or "").endswith("<impl frame::immutable::PortData>::from_struct_array") and len(c["args"]) == 3:
+                        a0 = strip(c["args"][0])
+                        # the child itself, downcast to a StructArray and cloned
+                        chain = []
+                        while a0.get("k") == "MethodCall":
+                            chain.append(a0["method"])
+                            a0 = strip(a0["recv"])
+                        conv = a0.get("k") == "Path" and a0.get("id") == child and child is not None and set(chain) <= {"clone", "unwrap", "downcast_ref", "as_any", "expect"} and "downcast_ref" in chain
+                        conv = conv and L.local_name(c["args"][1]) == vparam
+                        for y in tir.walk(c["args"][2]):
+                            if y.get("k") == "Call" and (declared(y) or "") == "game::Port::parse" and len(y["args"]) == 1:
+                                nm = strip(y["args"][0])
+                                parse_ok = nm.get("k") == "Field" and nm["name"] == "name" and strip(nm["base"]).get("k") == "Index" and tir.place(strip(nm["base"])["base"]) == "fields" and is_i(strip(nm["base"])["index"])
+                ok = "game::NUM_PORTS" in it and child is not None and conv and parse_ok
     rep.ob("import.ports", ok, p, "loop", "ports must be imported child-by-child with the port parsed from the same child's field name")
